@@ -1,6 +1,6 @@
 SPECIFICATION Spec
 CONSTANTS
-  MaxSpans = 7
+  MaxSpans = 8
   MaxTraces = 3
   Services <- SvcABC
   MaxErrors = 2
@@ -9,6 +9,7 @@ CONSTANTS
   Orders = {"fwd", "rev", "rot"}
   PageSize = 2
   MinSpans = 1
+  MinEntries = 0
   ResolveInTrace = TRUE
 INVARIANTS TypeOK BuildIsWellFormed MalformationBreaksOneTrace TreeCoversTrace TraceListOnce WindowExcludes PagesPartition DepGraphExact REDEntries IngestPlanInvariance
 CHECK_DEADLOCK FALSE
